@@ -48,7 +48,7 @@ func init() {
 			ruleAcceptedLinkIsCreated("C02.created"),
 			// each entry's header is written by the callback invocation that made it: a header kept for later (directories
 			// held back until something below them is packed) is lost when nothing comes to release it
-			ruleFreshHeaderPerEntry("C02.ownheader"), ruleNoNameLengthLimit("C02.namelength"), ruleClassifierKeepsKnownKinds("C02.special"), ruleBodyWrittenPlainly("C02.plaincopy"), aliasRule(ruleC03Parse, "C03.parse", "C02.parse", 3), ruleIllegalSlugOnlyFromJudges("C02.judgesonly"),
+			ruleFreshHeaderPerEntry("C02.ownheader"), ruleNoNameLengthLimit("C02.namelength"), ruleClassifierKeepsKnownKinds("C02.special"), ruleBodyWrittenPlainly("C02.plaincopy"), ruleRestoreChmodUnconditional("C02.chmodalways"), aliasRule(ruleC03Parse, "C03.parse", "C02.parse", 3), ruleIllegalSlugOnlyFromJudges("C02.judgesonly"),
 			aliasRuleFiltered(ruleC01Walk, "C01.walk", "C02.walked", 1, func(o Oblig) bool { return strings.Contains(o.Key, "walked path") }),
 			// the name test refuses what climbs out of the destination and nothing else: a test on the first bytes
 			// instead of the first segment refuses the names ..data and ..2024 that Pack writes
